@@ -15,7 +15,8 @@
     Section whose only hypothesis is the round trip of C03; it is instantiated here with C03's proof. *)
 From Coq Require Import List ZArith String Bool Arith.
 From Thunder Require Import Lib.Json DiffMerge.Model Server.Model Server.Spec Server.Proofs Server.ProofsLife
-     Server.ProofsConv Server.Witness Server.Queries Server.ProofsC02.
+     Server.ProofsConv Server.Witness Server.Queries Server.ProofsC02
+     Server.Product Server.ProductDrive Server.ProductWitness Server.ProofsProduct.
 Import ListNotations.
 
 (** Convergence.  After any history in which no socket write has failed ([st_wfail s = false]: the client is
@@ -99,3 +100,81 @@ Example convergence_example :
   exists s, run (repaired 3) init h_conv = Some s /\ List.length (updates_of 0 s) = 2
             /\ norm (client_state 0 s) = JObj [("a", JNum 3); ("items", JArr [JObj [("n", JNum 7)]; JObj [("n", JNum 5)]])].
 Proof. exact ProofsC02.conv_example_l. Qed.
+
+(** * End to end: the connection composed with the reactive package
+
+    Server/Product.v runs the connection model side by side with Reactive/Rerunner.v, the model of
+    reactive/graph.go + reactive/rerunner.go that C04 and C08 are proved about: the rerunner the connection
+    creates as number [rid] is rerunner [rid] of the reactive state; data changes are Strobe / Invalidate of
+    slots; a reactive step that publishes a computation of [rid] with recorded reads [out] is the
+    connection's [LRun rid (OOk (w_render w rid out))] (Execute's result is a function of what the resolvers
+    read), a run that returns a non-retry error is the connection's failing [LRun]; a connection step that
+    stops rerunners performs Rerunner.Stop on them.  A product history [h : list plabel] is an arbitrary
+    interleaving of client messages, asynchronous closes, socket failure / close, data changes, timers,
+    cache purges, cancellations and the critical sections of every goroutine of the reactive package. *)
+
+(** Every product history is a history of the connection model and a schedule of the reactive model (so every
+    theorem above, and every theorem of Props/C04.v and Props/C08.v, holds of the product's states); the
+    rerunners the connection created are rerunners of the pool. *)
+Theorem product_projects : forall w p, preachable w p ->
+  reachable (w_cfg w) (fst p) /\ RB.reachable (RR.init (w_slots w) (w_progs w)) (snd p)
+  /\ List.length (RR.s_rrs (snd p)) = pool w /\ st_next (fst p) <= pool w.
+Proof. exact ProofsProduct.product_projects_l. Qed.
+Print Assumptions product_projects.
+
+(** `previous` is the result of the computation the rerunner has published: in every state of the product the
+    value the connection diffs against is [w_render] of the reads of the reactive package's current output
+    (nil before the first successful computation). *)
+Theorem previous_is_published : forall w p rid ru, preachable w p ->
+  st_runners (fst p) rid = Some ru -> r_kind ru = KSub ->
+  match RR.r_out (RR.getr (snd p) rid) with
+  | Some out => r_initial ru = false /\ r_prev ru = w_render w rid out
+  | None => r_initial ru = true /\ r_prev ru = JNull
+  end.
+Proof. exact ProofsProduct.previous_is_published_l. Qed.
+Print Assumptions previous_is_published.
+
+(** LIVE CONVERGENCE.  For every world (pool of queries, their read scripts and result functions), every
+    history of client messages, data changes and schedules: when the reactive package has come to rest
+    (no goroutine left) and the client is still there, a live subscription whose context was not cancelled
+    has published a computation [out], every version that computation read is the slot's current version,
+    and the merge.ts client that folded the subscription's update messages from nothing holds the
+    key-stripped result of that computation - the result of running the query against the final data.
+    Proof: [convergence] (C02 over C03's round trip) for the connection, C04's
+    [published_output_is_current] for the reactive package, and the coherence invariant of the product. *)
+Theorem live_convergence : forall w h sv rx rid ru,
+  good_world w -> forallb pgood h = true -> prun w (pinit w) h = Some (sv, rx) ->
+  RR.quiescent rx -> st_wfail sv = false ->
+  st_runners sv rid = Some ru -> r_kind ru = KSub -> r_stat ru = Live -> RR.r_cancel (RR.getr rx rid) = false ->
+  exists out,
+    RR.r_out (RR.getr rx rid) = Some out
+    /\ (forall sl v, In (sl, v) out -> v = RR.slot_ver rx sl)
+    /\ jeq (client_state rid sv) (strip (w_render w rid out)).
+Proof. exact ProofsProduct.live_convergence_l. Qed.
+Print Assumptions live_convergence.
+
+(** The same with the final data written out: [on_current rx out] is the read path of the last computation
+    with every version replaced by the slot's version in the final state. *)
+Theorem live_convergence_current : forall w h sv rx rid ru,
+  good_world w -> forallb pgood h = true -> prun w (pinit w) h = Some (sv, rx) ->
+  RR.quiescent rx -> st_wfail sv = false ->
+  st_runners sv rid = Some ru -> r_kind ru = KSub -> r_stat ru = Live -> RR.r_cancel (RR.getr rx rid) = false ->
+  exists out, RR.r_out (RR.getr rx rid) = Some out
+    /\ jeq (client_state rid sv) (strip (w_render w rid (on_current rx out))).
+Proof. exact ProofsProduct.live_convergence_current_l. Qed.
+Print Assumptions live_convergence_current.
+
+(** Non-vacuity (Server/ProductWitness.v): three rerunners (a subscription reading slot 0 through a
+    reactive.Cache entry and slot 1 directly, a mutation, a subscription with a non-spawning handler), 136
+    labels: subscribe, slot 0 invalidated, a mutation runs to its result and is closed asynchronously, a
+    second subscribe, slot 0 strobed and slot 1 invalidated, all goroutines run to rest.  The premises of
+    [live_convergence] hold for subscription 0; it sent three updates and its client holds the result on
+    versions (2, 1). *)
+Example live_convergence_example :
+  good_world wx /\ forallb pgood h_live = true /\
+  exists sv rx ru, prun wx (pinit wx) h_live = Some (sv, rx) /\ RR.quiescent rx /\ st_wfail sv = false
+    /\ st_runners sv 0 = Some ru /\ r_kind ru = KSub /\ r_stat ru = Live /\ RR.r_cancel (RR.getr rx 0) = false
+    /\ RR.slot_ver rx 0 = 2 /\ RR.slot_ver rx 1 = 1 /\ RR.r_out (RR.getr rx 0) = Some [(0, 2); (1, 1)]
+    /\ List.length (updates_of 0 sv) = 3 /\ List.length h_live = 136
+    /\ norm (client_state 0 sv) = JObj [("a", JNum 2); ("items", JArr [JObj [("n", JNum 1)]])].
+Proof. split; [exact wx_good | exact live_example]. Qed.
